@@ -14,6 +14,10 @@ CLAIMS = {
    technique="relational interval abstract interpretation (linear forms over symbols with ranges + path constraints) of libovni's event-buffer functions on the clang CFGs, with inlining of the flush/marker recursion; who-may-write effect analysis; literal agreement of library-made MCVs",
    text="Establishes the step lemmas of the stream-fidelity induction for every value of evlen, payload size and jumbo size: in ovni_ev_add, ovni_ev_add_jumbo, ovni_flush and write_stream_header every copy into the 2 MiB buffer starts at the first free byte, copies tile without gap/overlap, offset+length <= capacity, evlen ends equal to the bytes buffered and stays below capacity; ovni_payload_add stays inside the 16-byte payload; every flush hands (buffer start, evlen) to write_evbuf, whose loop advances buffer and remaining size by write()'s return, ends only when all is written and dies on error; the user's event is appended exactly once, after an auto-flush and before the OF[ OF] markers; the only events the library makes itself are OF[ OF] and OM[ OM] OM=; the 8-byte header is written first. Not decided: that ovni_payload_add/ovni_payload_size are inverse on the size nibble (arithmetic on run-time values) and what the kernel does with write().",
    design_ref="§4 C01"),
+ "C02": dict(
+   technique="relational interval abstract interpretation of the automatic-flush recursion (re-entrancy infeasibility for all sizes), ordered-clock symbols for marker events, writer/reader JSON key and type agreement with path-sensitive 'always written' and 'reader fails without it' analyses",
+   text="Decides necessary conditions for protocol-conformant programs to give accepted traces: for every evlen, payload size and jumbo size the flush inside ovni_ev_add/ovni_ev_add_jumbo happens at most once and never while its own OF[ OF] markers are appended (proved by infeasibility of the nested flush condition under the path constraints); markers are appended paired and with clocks in sampling order; every metadata key whose absence makes an emulator reader function fail is written by libovni on every path of thread init/free (or together with the key it accompanies) with a compatible JSON type; the emulator walks streams with the runtime's own ovni_ev_size. Not decided: that the emulator accepts every conformant program (behavioural over programs).",
+   design_ref="§4 C02"),
  "C04": dict(
    technique="typestate extraction: abstract path exploration of the thread handlers over the finite (thread_state x event) domain, compared with the documented FSM; error-propagation analysis to main",
    text="Exhaustive over the abstract domain: pre_thread() is explored (thread.c inlined, infrastructure calls non-deterministic) for all 256 value bytes x 6 thread states; accept/reject and the post-state of every accepting path are compared with the documented state machine; thread_set_state's published view (is_running, is_active, state and TID channels) is evaluated for all 6 states; model_ovni_finish is evaluated on all 1- and 2-thread state combinations and its failure is followed call site by call site to main's exit status. Not decided: that the timeline shows the state at every instant (depends on patch-bay propagation, see C06).",
